@@ -85,4 +85,33 @@ func init() {
 		"	return wg.Wait()\n}", "	_ = wg.Wait()\n	return nil\n}", "C11.R3.failures")
 	mut("C11", "retries can go back to the highest known key", plgo,
 		"		r._proposedKey++", "		r._proposedKey = highestNodeID(r.candidateSnapshot)", "C11.R4.monotone")
+
+	// ---------------- C12
+	const gogo = "aspen/internal/cluster/gossip/gossip.go"
+	const csgo = "aspen/internal/cluster/store/store.go"
+	const hbgo = "x/go/version/heartbeat.go"
+	mut("C12", "Merge runs without the store mutex", csgo,
+		"func (c *core) Merge(ctx context.Context, other node.Group) {\n	c.mu.Lock()\n	defer c.mu.Unlock()\n", "func (c *core) Merge(ctx context.Context, other node.Group) {\n", "C12.R1.atomic")
+	mut("C12", "SetNode releases the mutex before publishing", csgo,
+		"	snap := c.CopyState()\n	snap.Nodes[n.Key] = n\n	c.SetState(ctx, snap)\n}\n\n// Merge", "	snap := c.CopyState()\n	snap.Nodes[n.Key] = n\n	c.mu.Unlock()\n	c.SetState(ctx, snap)\n	c.mu.Lock()\n}\n\n// Merge", "C12.R1.atomic")
+	mut("C12", "Merge keeps whichever record is less advanced", csgo,
+		"		if !ok || n.Heartbeat.OlderThan(in.Heartbeat) {", "		if !ok || n.Heartbeat.YoungerThan(in.Heartbeat) {", "C12.R2.direction")
+	mut("C12", "Merge overwrites unconditionally", csgo,
+		"		if !ok || n.Heartbeat.OlderThan(in.Heartbeat) {", "		if _ = in; true || !ok {", "C12.R2.direction")
+	mut("C12", "sync returns records the initiator is ahead on", gogo,
+		"		if ok && n.Heartbeat.OlderThan(dig.Heartbeat) {\n			ack.Nodes[dig.Key] = n", "		if ok && dig.Heartbeat.OlderThan(n.Heartbeat) {\n			ack.Nodes[dig.Key] = n", "C12.R2.direction")
+	mut("C12", "sync requests records it is ahead on", gogo,
+		"		if !ok || n.Heartbeat.YoungerThan(dig.Heartbeat) {", "		if !ok || n.Heartbeat.OlderThan(dig.Heartbeat) {", "C12.R2.direction")
+	mut("C12", "ack returns stale records", gogo,
+		"		if n, ok := snap.Nodes[dig.Key]; ok && n.Heartbeat.OlderThan(dig.Heartbeat) {", "		if n, ok := snap.Nodes[dig.Key]; ok && !n.Heartbeat.OlderThan(dig.Heartbeat) {", "C12.R2.direction")
+	mut("C12", "ack skips the merge when nothing was requested", gogo,
+		"	snap := g.Store.CopyState()\n	g.Store.Merge(ctx, ack.Nodes)", "	if len(ack.Digests) == 0 {\n		return ack2\n	}\n	snap := g.Store.CopyState()\n	g.Store.Merge(ctx, ack.Nodes)", "C12.R2.exchange")
+	mut("C12", "ack2 is dropped", gogo,
+		"func (g *Gossip) ack2(ctx context.Context, ack2 Message) { g.Store.Merge(ctx, ack2.Nodes) }", "func (g *Gossip) ack2(ctx context.Context, ack2 Message) { _ = ack2 }", "C12.R2.exchange")
+	mut("C12", "OlderThan falls through to the version when the generation is smaller", hbgo,
+		"	return h.Generation > other.Generation ||\n		(h.Generation == other.Generation && h.Version > other.Version)", "	if h.Generation > other.Generation {\n		return true\n	}\n	return h.Version > other.Version", "C12.R3.order")
+	mut("C12", "YoungerThan is not strict", hbgo,
+		"(h.Generation == other.Generation && h.Version < other.Version)", "(h.Generation == other.Generation && h.Version <= other.Version)", "C12.R3.order")
+	mut("C12", "Restart keeps the version", hbgo,
+		"func (h Heartbeat) Restart() Heartbeat { h.Generation++; h.Version = 0; return h }", "func (h Heartbeat) Restart() Heartbeat { h.Generation++; return h }", "C12.R3.order")
 }
